@@ -379,7 +379,64 @@ def run(ctx):
     r08_3(prog, r3)
     r4 = Rule("R08.4", "a failing verdict of a member or delegated checker always reaches the return value of the walker", floor=5)
     r08_4(prog, r4)
-    return [r1, r2, r3, r4]
+    return [r1, r2, r3, r4, r08_5(prog)]
+
+
+GENERIC_CHECKERS = ("asn_generic_no_constraint", "asn_generic_unknown_constraint")
+
+
+def r08_5(prog):
+    """Restricted types check their built-in alphabet.  A skeleton descriptor that carries a built-in PER alphabet/size
+    table (its `per_constraints` is set: the type has a restricted alphabet by definition), or whose type has a checker
+    function of its own (`<Type>_constraint` exists in the program), must name that checker in general_constraints; one
+    of the two generic accept-everything checkers there makes asn_check_constraints accept any octets for the type.
+    Inside each own checker that walks the value octet by octet, the loop must be able to return -1 (a failing exit is
+    reachable from the loop body)."""
+    from ..model import relpath
+    r = Rule("R08.5", "descriptors of restricted types name their own alphabet/format checker, and that checker can fail", floor=10)
+    for name, init in sorted(prog.descriptors.items()):
+        ec = init.get("encoding_constraints", {})
+        if not isinstance(ec, dict):
+            continue
+        g = prog.global_by_name[name][0]
+        tname = name[len("asn_DEF_"):]
+        own = prog.func(tname + "_constraint")
+        gc = ec.get("general_constraints")
+        has_builtin = bool(ec.get("per_constraints")) or own is not None
+        if not has_builtin:
+            continue
+        key = "descriptor:" + name
+        if isinstance(gc, str) and gc[3:] in GENERIC_CHECKERS:
+            r.add(relpath(g["file"]), name, key, "violation", "the type has a built-in restriction (%s) but its descriptor names %s: every value passes "
+                  "validation" % ("own checker %s_constraint exists" % tname if own else "per_constraints table", gc[3:]), g["line"])
+            continue
+        r.add(relpath(g["file"]), name, key, "pass", "general_constraints = %s" % (gc[3:] if isinstance(gc, str) else gc), g["line"])
+        chk = prog.func(gc[3:]) if isinstance(gc, str) and gc.startswith("fn:") else None
+        if chk is None:
+            continue
+        loops_ = chk.loops()
+        if not loops_:
+            continue
+        # some loop body must reach a negative return without leaving through the loop's normal exit only
+        can_fail = False
+        for h, body in loops_:
+            for bid in body:
+                for e in chk.blocks[bid].ev:
+                    if e["k"] == "return" and isinstance((e.get("expr") or {}).get("const"), int) and e["expr"]["const"] < 0:
+                        can_fail = True
+                # a branch out of the loop into a block that returns -1 (through the failure callback macro)
+                for s_ in chk.blocks[bid].succs():
+                    if s_ not in body:
+                        reach = chk.reachable_from([s_], stop=lambda x: x in body)
+                        for x in reach:
+                            for e in chk.blocks[x].ev:
+                                if e["k"] == "return" and isinstance((e.get("expr") or {}).get("const"), int) and e["expr"]["const"] < 0:
+                                    can_fail = True
+        if can_fail:
+            r.ok(chk, "loop-can-fail", "the octet loop of the checker has a failing exit", chk.line)
+        else:
+            r.bad(chk, "loop-can-fail", "the checker walks the value but no failing return is reachable from inside the loop: nothing is ever rejected", chk.line)
+    return r
 
 
 def thorough(ctx):
